@@ -424,9 +424,54 @@ def r19_7(chk, P):
                f'the data moves by {show(S)} but the window fields advance by {[(f, show(lf) if lf else "?") for f, lf, q in adv]}')
 
 
+def r19_8(chk, P):
+    chk.rule('R19.8', 'decoder views are read from their first sample: in vorbisfile.c a row of the view vorbis_synthesis_pcmout / '
+             'vorbis_synthesis_lapout hands out (float **pcm filled through &pcm) is used as it is -- as a copy source, as an '
+             'argument, or subscripted -- and never advanced by pointer arithmetic: the view already begins at the first '
+             'sample not yet delivered (vorbis_synthesis_read moved past what was consumed), so an offset skips samples of '
+             'the overlap the lap helpers collect')
+    n = 0
+    for F in P.functions():
+        if not F.file.endswith('vorbisfile.c'):
+            continue
+        views = set()
+        for c in F.calls():
+            if F.ex[c]['callee'].get('d') in ('vorbis_synthesis_pcmout', 'vorbis_synthesis_lapout') and len(F.ex[c]['c']) > 1:
+                a = F.ex[F.strip_casts(F.ex[c]['c'][1])]
+                if a['k'] == 'un' and a['op'] == '&':
+                    t = F.ex[F.strip_casts(a['c'][0])]
+                    if t['k'] == 'ref' and t['decl'].get('kind') == 'var':
+                        views.add(t['decl']['id'])
+        if not views:
+            continue
+        for e in sorted(F.nodes('sub'), key=lambda x: F.ex[x].get('loc', [0, 0])):
+            b = F.ex[F.strip_casts(F.ex[e]['c'][0])]
+            if not (b['k'] == 'ref' and b['decl'].get('id') in views):
+                continue
+            p_ = F.sparent.get(e)
+            c_ = e
+            while p_ is not None and F.ex[p_]['k'] == 'cast':
+                c_, p_ = p_, F.sparent.get(p_)
+            pn = F.ex[p_] if p_ is not None else None
+            bad = False
+            if pn is not None and pn['k'] == 'bin' and pn['op'] in ('+', '-'):
+                other = pn['c'][1] if pn['c'][0] == c_ else pn['c'][0]
+                bad = common.const_val(F, other) != 0
+            if pn is not None and pn['k'] == 'assign' and pn['op'] in ('+=', '-=') and pn['c'][0] == c_:
+                bad = True
+            n += 1
+            chk.ob('R19.8', F.name, f'view-row-read-from-its-start@{F.loc(e)}', not bad, F.where(e),
+                   f'`{F.s(p_ if pn is not None and pn["k"] in ("sub", "call") else e)[:60]}`: the row is used from its first sample' if not bad else
+                   f'`{F.s(p_)[:70]}`: the row of the decoder view is advanced by an offset: the view already starts at the first '
+                   'undelivered sample, the offset skips that many samples of the data being collected')
+    return n
+
+
 def run(chk, P):
     r19_7(chk, P)
     chk.floor('R19.7', 2)
+    r19_8(chk, P)
+    chk.floor('R19.8', 3)
     r19_6(chk, P)
     chk.floor('R19.6', 4)
     r19_5(chk, P)
